@@ -19,6 +19,8 @@ import time
 import traceback
 
 VERIF = os.path.dirname(os.path.dirname(os.path.abspath(__file__)))
+# calibration aid only (never set by registered commands): multiplies every tolerance
+TOLX = float(os.environ.get("VERIF_TOLX", "1"))
 
 
 # ----------------------------------------------------------------------------------------------
@@ -26,9 +28,10 @@ VERIF = os.path.dirname(os.path.dirname(os.path.abspath(__file__)))
 # ----------------------------------------------------------------------------------------------
 class Outcome:
     """Result of one case.  fail is None or dict(cls=..., msg=..., facts={...})."""
-    __slots__ = ("fail", "nontrivial", "labels", "skipped")
+    __slots__ = ("fail", "nontrivial", "labels", "skipped", "metrics")
 
-    def __init__(self, fail=None, nontrivial=True, labels=(), skipped=False):
+    def __init__(self, fail=None, nontrivial=True, labels=(), skipped=False, metrics=None):
+        self.metrics = metrics or {}
         self.fail = fail
         self.nontrivial = bool(nontrivial)
         self.labels = list(labels)
@@ -136,6 +139,10 @@ def _exec_case(sub, case):
             if "/holopy/" in fr.filename:
                 inner = "%s:%s" % (os.path.basename(fr.filename), fr.name)
                 break
+        if inner is None:
+            # no HoloPy frame on the stack: the harness itself is broken -> exit 2, never a VIOLATION
+            return Outcome(fail=failure("harness_error", "%s: %s\n%s" % (
+                type(e).__name__, e, "".join(traceback.format_tb(e.__traceback__)[-6:]))), nontrivial=False)
         return Outcome(fail=failure("exception:" + type(e).__name__,
                                     "%s: %s\n%s" % (type(e).__name__, e, "".join(traceback.format_tb(e.__traceback__)[-6:])),
                                     where=inner), nontrivial=True)
@@ -152,7 +159,7 @@ def _exec_isolated(sub, case, timeout=120.0):
             os.close(r)
             out = _exec_case(sub, case)
             payload = json.dumps({"fail": out.fail, "nontrivial": out.nontrivial,
-                                  "labels": out.labels, "skipped": out.skipped},
+                                  "labels": out.labels, "skipped": out.skipped, "metrics": out.metrics},
                                  default=_json_default).encode()
             with os.fdopen(w, "wb") as fh:
                 fh.write(payload)
@@ -195,7 +202,7 @@ def _exec_isolated(sub, case, timeout=120.0):
                                     "child interpreter terminated without a result (exit code %s)" % ec,
                                     exit_code=ec), nontrivial=True)
     d = json.loads(data)
-    return Outcome(d["fail"], d["nontrivial"], d["labels"], d["skipped"])
+    return Outcome(d["fail"], d["nontrivial"], d["labels"], d["skipped"], d.get("metrics"))
 
 
 def exec_case(sub, case):
@@ -219,7 +226,7 @@ def run_shard(prop_mod, subname, shard, nshards, n_examples, seed, tier, budget,
     sub = next(s for s in prop_mod.SUBCHECKS if s.name == subname)
     known = load_known(prop_mod.PROPERTY)
     stats = {"evaluations": 0, "skipped": 0, "labels": {}, "hashes_nontrivial": set(),
-             "samples": [], "known_hits": {}, "truncated": False, "excluded": 0}
+             "samples": [], "known_hits": {}, "truncated": False, "excluded": 0, "metrics": {}}
     found = []           # list of (signature, case, fail)
     suppressed = set()
     t_start = time.time()
@@ -240,6 +247,14 @@ def run_shard(prop_mod, subname, shard, nshards, n_examples, seed, tier, budget,
         stats["evaluations"] += 1
         for lab in out.labels:
             stats["labels"][lab] = stats["labels"].get(lab, 0) + 1
+        for mk, mv in out.metrics.items():
+            try:
+                mv = float(mv)
+            except Exception:
+                continue
+            cur = stats["metrics"].get(mk)
+            if mv == mv and (cur is None or mv > cur[0]):
+                stats["metrics"][mk] = [mv, json.loads(canon(case))]
         if out.skipped:
             stats["skipped"] += 1
         if out.fail is None:
@@ -433,7 +448,7 @@ def run_property(prop, tier, seed, only=None, workers=16, scale=1.0):
     for s in subs:
         agg = {"evaluations": 0, "skipped": 0, "labels": {}, "hashes": set(), "samples": [],
                "known_hits": {}, "truncated": False, "excluded": 0, "enum_total": 0, "wall_s": 0.0,
-               "shards": 0}
+               "shards": 0, "metrics": {}}
         for (sn, sh), (ec, t) in sorted(results.items()):
             if sn != s.name:
                 continue
@@ -475,6 +490,9 @@ def run_property(prop, tier, seed, only=None, workers=16, scale=1.0):
             for k, v in st["known_hits"].items():
                 agg["known_hits"][k] = agg["known_hits"].get(k, 0) + v
             agg["hashes"].update(st["hashes_nontrivial"])
+            for mk, mv in st.get("metrics", {}).items():
+                if mk not in agg["metrics"] or mv[0] > agg["metrics"][mk][0]:
+                    agg["metrics"][mk] = mv
             if len(agg["samples"]) < 3:
                 agg["samples"].extend(st["samples"][:3 - len(agg["samples"])])
             for he in st.get("harness_errors", []):
@@ -533,6 +551,7 @@ def run_property(prop, tier, seed, only=None, workers=16, scale=1.0):
                     "enumerated_exhaustively": per_sub[s.name]["enum_total"],
                     "labels": dict(sorted(per_sub[s.name]["labels"].items())),
                     "tolerances": s.tolerances,
+                    "observed_max": {k: v[0] for k, v in sorted(per_sub[s.name]["metrics"].items())},
                     "notes": s.notes,
                     "shards": per_sub[s.name]["shards"],
                     "budget_truncated": per_sub[s.name]["truncated"],
@@ -558,6 +577,9 @@ def run_property(prop, tier, seed, only=None, workers=16, scale=1.0):
         print("  %-28s cases=%-6d nontrivial=%-6d skipped=%-5d excluded=%-4d %s%.0fs" % (
             s.name, a["evaluations"], len(a["hashes"]), a["skipped"], a["excluded"],
             "TRUNCATED " if a["truncated"] else "", a["wall_s"]))
+        if os.environ.get("VERIF_SHOW_METRICS"):
+            for mk, mv in sorted(a["metrics"].items()):
+                print("      max %-28s %.3g   at %s" % (mk, mv[0], canon(mv[1])[:400]))
     for k, v in sorted(known_hits_total.items()):
         e = known[int(k)]
         print("KNOWN-FINDING: property=%s %s (hits this run: %d)" % (prop, e["what"], v))
@@ -566,6 +588,10 @@ def run_property(prop, tier, seed, only=None, workers=16, scale=1.0):
     for i, e in enumerate(known):
         if str(i) not in known_hits_total:
             print("KNOWN-FINDING: property=%s %s (not hit this run)" % (prop, e["what"]))
+    he = [v for v in viol_lines if v[2]["cls"] == "harness_error"]
+    viol_lines = [v for v in viol_lines if v[2]["cls"] != "harness_error"]
+    for path, sn, fl, origin in he:
+        harness_errors.append("%s: %s (case saved at %s)" % (sn, fl["msg"], path))
     for path, sn, fl, origin in viol_lines:
         print("  failure in %s [%s] %s: %s" % (sn, origin, fl["cls"], fl["msg"].splitlines()[0][:300]))
         print("VIOLATION property=%s replay=%s" % (prop, path))
